@@ -620,4 +620,42 @@ theorem cs_passed_of_isPassed {t : Tally} {b : Block} (ho : t.status = .open) (h
   rw [if_neg (by simp [ho]), h, ok_bind]
   rfl
 
+/-! ## 6. `OpenOk` at every block, on arbitrary histories -/
+
+theorem cs_open_any_block {t : Tally} {b0 b : Block} (ho : t.status = .open) (h0 : Cw3.currentStatus t b0 = .ok .open)
+    (hne : t.expires.isExpired b = false) : Cw3.currentStatus t b = .ok .open := by
+  have hne0 : t.expires.isExpired b0 = false := by
+    cases he : t.expires.isExpired b0 with
+    | false => rfl
+    | true => rcases expired_status ho he h0 with e | e <;> cases e
+  rw [← h0]; exact cs_congr (by rw [hne, hne0])
+
+/-- `OpenOk` holds at EVERY block, whatever the order of the blocks of the history: the library decision
+depends on the block only through expiry, and a proposal is stored Open only by an operation that found
+it undecided and not expired. -/
+theorem openOk_all_step {b0 : Block} {o : Option Proposal} {p' : Proposal} (hold : ∀ p, o = some p → ∀ b, OpenOk b p)
+    (h : PropStep b0 o p') : ∀ b, OpenOk b p' := by
+  cases h with
+  | same _ => exact hold _ rfl
+  | created p st ho hst =>
+    intro b ho' hne
+    have : st = .open := ho'
+    subst this
+    have e : ({ p with status := Status.open } : Proposal) = p := by cases p; simp_all
+    rw [e] at hne ⊢
+    exact cs_open_any_block (t := p.tally) (by simp [Proposal.tally, ho]) hst (by simpa [Proposal.tally] using hne)
+  | voted p v w votes st hvot hne0 hadd hst =>
+    intro b ho' hne
+    have : st = .open := ho'
+    subst this
+    by_cases h0 : p.status = .open
+    · have e : ({ p with votes := votes, status := Status.open } : Proposal) = { p with votes := votes } := by
+        cases p; simp_all
+      rw [e] at hne ⊢
+      exact cs_open_any_block (t := Proposal.tally { p with votes := votes }) (by simp [Proposal.tally, h0]) hst
+        (by simpa [Proposal.tally] using hne)
+    · exact absurd (sticky_status h0 hst).symm h0
+  | executed p _ => intro b ho'; cases ho'
+  | closed p st _ _ _ _ => intro b ho'; cases ho'
+
 end CwPlus.Cw3Core
